@@ -47,7 +47,7 @@ fn gen_history(t: &mut Tape) -> (Vec<Commit>, Vec<Line>) {
         commits.push(Commit {
             hash,
             author: t.pick(AUTHORS).to_string(),
-            ts: (2000 + t.below(25) as u32, 1 + t.below(12) as u32, 1 + t.below(28) as u32, t.below(24) as u32, t.below(60) as u32, t.below(60) as u32, t.ps(&["+0000", "-0700", "+0530", "+1400", "-1200", "+0100"]).to_string()),
+            ts: (2000 + t.below(25) as u32, 1 + t.below(12) as u32, 1 + t.below(28) as u32, t.below(24) as u32, t.below(60) as u32, t.below(60) as u32, t.ps(&["+0000", "-0700", "+0530", "+1400", "-1200", "+0100", "-0330", "-0930", "-0030", "+0545", "+1245", "-0001"]).to_string()),
             file: if t.chance(1, 8) { Some(text::path(t, &text::PathOpts::plain())) } else { None },
         });
     }
